@@ -119,6 +119,15 @@ M = [
     ("m82", "C01", "src/redis/executor/bitmap_ops.rs", "            Some(_) => (false, true),\n", "            Some(_) => (true, false),\n", r"R01\.13:execute_setbit"),
     ("m83", "C01", "src/redis/data/skiplist.rs", "            .partial_cmp(&score2)\n            .unwrap_or(Ordering::Equal)\n", "            .total_cmp(&score2)\n", r"R01\.15"),
     ("m84", "C01", "src/redis/data/sorted_set.rs", "                if old_score == score {", "                if (old_score - score).abs() < f64::EPSILON {", r"R01\.14"),
+    ("m85", "C01", "src/redis/executor/hash_ops.rs", "let new_value = match current.checked_add(increment) {\n                    Some(v) => v,\n                    None => return RespValue::err(\"ERR increment or decrement would overflow\"),\n                };", "let new_value = current.saturating_add(increment);", r"R01\.17"),
+    ("m86", "C01", "src/redis/data/sorted_set.rs", "                entry.insert(score);\n                self.skiplist.insert(key_for_skiplist, score);", "                entry.insert(score);\n                if score.is_finite() {\n                    self.skiplist.insert(key_for_skiplist, score);\n                }", r"R01\.18"),
+    ("m87", "C06", "src/replication/state/shard_state.rs", "let delta = ReplicationDelta::new(key.clone(), replicated.clone(), self.replica_id);\n        self.replicated_keys.insert(key.clone(), replicated);\n        self.pending_deltas.push(delta.clone());\n        self.enforce_pending_capacity();\n\n        // TigerStyle: Postconditions\n        #[cfg(debug_assertions)]\n        {\n            debug_assert!(\n                self.replicated_keys.contains_key(&key),\n                \"Postcondition: key '{}' must exist in replicated_keys\",\n                key\n            );\n            debug_assert!(\n                self.replicated_keys\n                    .get(&key)\n                    .map(|v| v.is_hash())", "let mut shipped = replicated.clone();\n        shipped.expiry_ms = None;\n        let delta = ReplicationDelta::new(key.clone(), shipped, self.replica_id);\n        self.replicated_keys.insert(key.clone(), replicated);\n        self.pending_deltas.push(delta.clone());\n        self.enforce_pending_capacity();\n\n        // TigerStyle: Postconditions\n        #[cfg(debug_assertions)]\n        {\n            debug_assert!(\n                self.replicated_keys.contains_key(&key),\n                \"Postcondition: key '{}' must exist in replicated_keys\",\n                key\n            );\n            debug_assert!(\n                self.replicated_keys\n                    .get(&key)\n                    .map(|v| v.is_hash())", r"R06\.10"),
+    ("m88", "C07", "src/replication/lattice.rs", "        self.time = self.time.max(other.time) + 1;", "        self.time = self.time.max(other.time) + 1;\n        if other.time > self.time { self.replica_id = other.replica_id; }", r"R07\.6"),
+    ("m89", "C10", "src/streaming/wal.rs", "    let name = name.strip_prefix(\"wal-\")?.strip_suffix(\".wal\")?;\n", "    let name = name.strip_prefix(\"wal-\")?.strip_suffix(\".wal\")?;\n    if name.len() != 8 {\n        return None;\n    }\n", r"R10\.10"),
+    ("m90", "C12", "src/streaming/compaction.rs", "        new_manifest.next_segment_id = new_segment_id + 1;", "        new_manifest.next_segment_id = new_manifest.segments.last().map_or(0, |s| s.id + 1);", r"R12\.11"),
+    ("m91", "C15", "src/redis/resp_optimized.rs", "            from = pos + 1;", "            from = pos + 2;", r"R15\.14"),
+    ("m92", "C19", "src/replication/hash_ring.rs", "        self.physical_nodes.retain(|n| *n != node);", "        self.physical_nodes.retain(|n| *n != node);\n        self.replication_factor = self.replication_factor.min(self.physical_nodes.len().max(1));", r"R19\.8"),
+    ("m93", "C02", "src/production/sharded_actor.rs", "    async fn execute(&self, cmd: Command, virtual_time: VirtualTime) -> RespValue {", "    async fn execute(&self, cmd: Command, virtual_time: VirtualTime) -> RespValue {\n        let _ = tokio::time::timeout(std::time::Duration::from_millis(0), std::future::ready(())).await;", r"R02\.9"),
 ]
 
 
